@@ -130,6 +130,7 @@ func (w *World) Open(dir string) (err error) {
 	verifhook.Reset()
 	NoKV.VerifResetPools()
 	verifhook.Set("lsm.no-background-compaction", 1)
+	verifhook.Set("lsm.serial-table-build", 1)
 	// Memtable arenas are 128 MiB by default and are cleared on allocation; the
 	// arena is chunked and grows on demand, so a 1 MiB arena only makes runs
 	// ~30x cheaper (knob 0 keeps the shipped size).
